@@ -138,3 +138,53 @@ def solution_features(inst: Instance, sols, mode):
         if m != inst.lca_mapping():
             labels.add("non_lca_mapping")
     return sorted(labels), eventful
+
+
+# ---------------------------------------------------------------------------
+# outputs that refer to refined (binarised) trees
+# ---------------------------------------------------------------------------
+def case_of_output(out, costs):
+    """Plain case dictionary of the input an output refers to (read from the
+    objects, not from to_dict)."""
+    from .plain import from_ete
+
+    ot = from_ete(out.input.object_tree)
+    st = from_ete(out.input.species_lca.tree)
+    case = {
+        "object_tree": ot.to_newick(with_features=False),
+        "species_tree": st.to_newick(with_features=False),
+        "leaf_object_species": {k.name: v.name for k, v in out.input.leaf_object_species.items()},
+        "costs": dict(costs),
+    }
+    if hasattr(out.input, "leaf_syntenies"):
+        case["leaf_syntenies"] = {k.name: list(v) for k, v in out.input.leaf_syntenies.items()}
+    return case, ot, st
+
+
+def check_refinement(orig, refined, tag):
+    """V-TREES for one tree: refined is binary, has the same leaves, keeps
+    every clade of the original, and the name/colour of every named original
+    node sits on the node with the same clade."""
+    if not refined.is_binary():
+        raise Violation(f"{tag}.V-TREES.not-binary", observed=refined.to_newick(), expected="binary tree")
+    if sorted(refined.name[l] for l in refined.leaves()) != sorted(orig.name[l] for l in orig.leaves()):
+        raise Violation(f"{tag}.V-TREES.leaf-set", observed=refined.to_newick(), expected=orig.to_newick())
+    by_clade = {}
+    for n in refined.nodes():
+        by_clade.setdefault(refined.clade(n), []).append(n)
+    for n in orig.nodes():
+        cl = orig.clade(n)
+        if cl not in by_clade:
+            raise Violation(f"{tag}.V-TREES.clade-lost", observed=refined.to_newick(), expected=sorted(cl))
+        if orig.is_leaf(n):
+            continue
+        targets = by_clade[cl]
+        name = orig.name[n]
+        if name not in ("", "NoName") and not any(refined.name[t] == name for t in targets):
+            raise Violation(f"{tag}.V-TREES.name-lost", observed=[refined.name[t] for t in targets], expected=name)
+        col = orig.features[n].get("color")
+        if col is not None and not any(refined.features[t].get("color") == col for t in targets):
+            raise Violation(f"{tag}.V-TREES.colour-lost", observed=[refined.features[t] for t in targets], expected=col)
+    names = [refined.name[n] for n in refined.nodes()]
+    if len(set(names)) != len(names) or any(x in ("", "NoName") for x in names):
+        raise Violation(f"{tag}.V-TREES.names-not-unique", observed=names, expected="distinct non-empty names")
